@@ -33,13 +33,29 @@ func c18paths(c *Ctx) {
 	baseMap := map[string]string{home: "~", cwd: "."}
 	prefixPool := []string{"/srv/data", "/srv/data/projects", "/srv", "/opt/build/agent-7/work", "/mnt/vol1/users/alice", "/var/lib/ci", "/srv/data/projects/deep/er", home + "/go/src", home + "/work", "/tmp/x y", "/ünï/cödé"}
 	replPool := []string{"~d", "~p", "$SRV", "~w", "~alice", "CI:", "~deep", "~gosrc", "~work", "~tmp", "~u"}
-	rxPool := []rxMap{{expr: `^/mnt/vol[0-9]+/`, repl: "~vol/"}, {expr: `^/net/[a-z]+/export/`, repl: "~net/"}, {expr: `^/Users/[^/]+/`, repl: "~/"}}
+	rxPool := []rxMap{{expr: `^/mnt/vol[0-9]+/`, repl: "~vol/"}, {expr: `^/net/[a-z]+/export/`, repl: "~net/"}, {expr: `^/Users/[^/]+/`, repl: "~/"},
+		// rules that are not anchored: they also match further down a path that a plain mapping (or the home directory) already shortened
+		{expr: `/releases/v[0-9.]+/`, repl: "/rel/"}, {expr: `/node_modules/`, repl: "/nm/"}}
 	for i := range rxPool {
 		rxPool[i].re = regexp.MustCompile(rxPool[i].expr)
 	}
+	startCwd := cwd
 	c.Each(func(idx int, r *gen.R) {
 		restore := withFlags(0, 0)
 		defer restore()
+		// the process may have changed its working directory since start-up: a relative result is relative to where the
+		// process is NOW
+		cwd := startCwd
+		if r.P(30) {
+			to := gen.Pick(r, []string{"/usr/lib", "/", filepath.Dir(startCwd), "/tmp", filepath.Dir(filepath.Dir(startCwd))})
+			if os.Chdir(to) == nil {
+				defer func() { _ = os.Chdir(startCwd) }()
+				if d, err := os.Getwd(); err == nil {
+					cwd = d
+				}
+				c.R.Add("cases_after_a_chdir", 1)
+			}
+		}
 		privacy, rxFlag := r.P(80), r.Bool()
 		if privacy {
 			slog.AddFlags(slog.Lprivacypath)
@@ -113,7 +129,12 @@ func c18paths(c *Ctx) {
 		nq := 12
 		for qi := 0; qi < nq; qi++ {
 			var p string
-			switch r.Intn(10) {
+			switch r.Intn(12) {
+			case 10: // outside every mapping but close to the start-up directory / the current directory
+				p = gen.Pick(r, []string{filepath.Join(filepath.Dir(startCwd), "sibling", "x.go"), filepath.Join(filepath.Dir(filepath.Dir(startCwd)), "y.go"), filepath.Join(filepath.Dir(cwd), "sib2", "z.go"), filepath.Join(cwd, "below", "w.go")})
+			case 11: // under a protected prefix AND matched further down by a rule that is not anchored
+				k := gen.Pick(r, keys)
+				p = k + gen.Pick(r, []string{"/mnt/Volumes/ext1/proj/main.go", "/releases/v1.2.3/cmd/x.go", "/web/node_modules/left-pad/index.go", "/a/releases/v2/Volumes/v/b.go"})
 			case 0, 1, 2, 3: // under a protected prefix
 				k := gen.Pick(r, keys)
 				p = k + "/" + gen.Pick(r, []string{"main.go", "pkg/util/x.go", "a b/c.go", "ünï/file.go", "deep/er/and/deeper/f.go", ".hidden/z.go"})
@@ -145,7 +166,7 @@ func c18paths(c *Ctx) {
 			if len(outs) > 1 {
 				c.R.Add("queries_with_order_dependent_output", 1)
 			}
-			desc := map[string]any{"path": p, "privacy_flag": privacy, "regexp_flag": rxFlag, "table": table, "regexps": rxNames(rxs), "history": hist, "cwd": cwd, "home": home}
+			desc := map[string]any{"path": p, "privacy_flag": privacy, "regexp_flag": rxFlag, "table": table, "regexps": rxNames(rxs), "history": hist, "cwd": cwd, "start_up_cwd": startCwd, "home": home}
 			for got := range outs {
 				if cl, feat, why := c18judge(p, got, privacy, rxFlag, table, allRx, cwd); cl != "" {
 					c.R.Violation(idx, cl, "C18/"+cl+"/"+feat, fmt.Sprintf("Safety(%q) = %q: %s (distinct outputs over 32 calls: %v)", p, got, why, outs), desc)
